@@ -225,7 +225,9 @@ class BucketPart:
                 "instances-interfere (an action of one instance must not change the other's public state); 17%: late configuration "
                 "(built with other values or without optional arguments, public attributes assigned before any traffic); 50%: packet "
                 "ids numbered per flow (equal ids inside the shaper together); the recording next hop samples the shaper's public "
-                "state inside its put() (hand-off clauses, also replayed against the model); after 12% of the cases a fixed canary "
+                "state inside its put() (hand-off clauses, also replayed against the model); 28%: re-wiring (`out` assigned 2-3 times "
+                "before traffic, decoy sinks first, None in between; re-attached mid-run to a second sink at arrival/release "
+                "instants; every packet goes once to the sink in force); after 12% of the cases a fixed canary "
                 "scenario runs in the same process and is compared with its known observation; distinct by hash"),
         "C08": "same case stream as C11; non-trivial = at least 3 packets, at least one queued behind another",
     }
@@ -371,6 +373,30 @@ class BucketPart:
                 nxt[sp["flow"]] = nxt.get(sp["flow"], 0) + 1
                 sp["id"] = nxt[sp["flow"]]
             case["ids"] = "per-flow"
+        # re-wiring: `out` is assigned two or three times before traffic (decoy sinks first, optionally None in between) and/or
+        # the shaper is re-attached mid-run to a second sink (optionally through None within one step); every packet must be
+        # handed, once, to the sink in force at the moment it is forwarded
+        if rng.random() < 0.28:
+            rw = {"pre": rng.choice([0, 1, 1, 2]), "pre_none": rng.random() < 0.3, "mid": []}
+            try:
+                arr = self._static_arrivals(case)
+                inst = [t for (_, t, _) in arr]
+                if kind == "tb":
+                    for (_, d, dep, _) in ref_tb(case, arr):
+                        inst += [d, dep]
+                else:
+                    inst += [t for (_, t, _, _, _) in ref_trtb(case, arr)]
+                inst = sorted({t for t in inst if ec_exact(t) and t >= t0})
+                to = "out2"
+                for t in sorted(rng.sample(inst, min(len(inst), rng.choice([0, 1, 1, 2])))):
+                    rw["mid"].append({"t": cf.qjson(t + rng.choice([0, 0, 0, Fr(1, 8)])), "late": rng.choice([0, 0, 1, 2, 4]),
+                                      "to": to, "none": rng.random() < 0.3})
+                    to = "out" if to == "out2" else "out2"
+            except Exception:
+                pass
+            if rw["pre"] == 0 and not rw["mid"]:
+                rw["pre"] = 1
+            case["rewire"] = rw
         # late configuration: build the shaper with other values (or without its optional arguments) and assign the
         # public attributes the code reads at every use before any traffic; the bucket level that __init__ derives
         # from the bucket size is assigned consistently
@@ -484,7 +510,7 @@ class BucketPart:
         if pre and n == 1:
             for d in cases[0]["workload"]["drivers"]:
                 h.add_driver(d["bursts"], late=d["late"])
-        insts, samplers = [], []
+        insts, samplers, rewires = [], [], []
         for i, c in enumerate(cases):
             lc = c.get("late_cfg")
             if c["kind"] == "tb":
@@ -522,7 +548,15 @@ class BucketPart:
                 samplers.append(lambda el=el: [el.packets_received, el.packets_sent, ec.qs(el.current_bucket_commit),
                                                None if el.current_bucket_peak is None else ec.qs(el.current_bucket_peak),
                                                ec.qs(el.update_time), len(el.store.items)])
-            el.out = ColourTap(h, "out" + tags[i], samplers[-1])
+            rw = c.get("rewire") or {"pre": 0, "pre_none": False, "mid": []}
+            taps = {nm: ColourTap(h, nm + tags[i], samplers[-1]) for nm in ("out", "out2", "decoy1", "decoy2")}
+            for k in range(rw["pre"]):
+                el.out = taps["decoy%d" % (k + 1)]
+                if rw["pre_none"]:
+                    el.out = None
+            el.out = taps["out"]
+            for m in rw["mid"]:
+                rewires.append((i, el, taps, m))
             h.watch_store("store" + tags[i], el.store)
             if tags[i]:
                 el.action._generator.__name__ = "run" + tags[i]
@@ -536,9 +570,24 @@ class BucketPart:
             for i, c in enumerate(cases):
                 for d in c["workload"]["drivers"]:
                     h.add_driver(d["bursts"], late=d["late"], target=insts[i])
+        for (i, el, taps, m) in rewires:
+            def rewirer(i=i, el=el, taps=taps, m=m):
+                d = ec.T(m["t"]) - env.now
+                if d > 0:
+                    yield env.timeout(d)
+                for _ in range(m["late"]):
+                    yield env.timeout(0)
+                if m["none"]:
+                    el.out = None                 # no forward can happen before the next line: same kernel step
+                el.out = taps[m["to"]]
+                h._action(["rewire", i, m["to"]])
+            h.driver_procs.add(env.process(rewirer()))
         log = h.run()
         if n == 1:
-            return [{"log": log, "raised": h.raised, "exhausted": h.exhausted}]
+            for e in log:
+                if e[0] == "rewire":
+                    del e[1]
+            return [{"log": log, "raised": h.raised, "exhausted": h.exhausted, "hand": True}]
         # split the global log per instance; an action of one instance must leave the other's public state alone
         logs = [[] for _ in range(n)]
         interfere = []
@@ -552,6 +601,9 @@ class BucketPart:
             elif k == "put":
                 who = owner[e[1]]
                 logs[who].append(["put", e[1], e[2], samples[who]])
+            elif k == "rewire":
+                who = e[1]
+                logs[who].append(["rewire", e[2], samples[who]])
             elif k in ("step", "raise"):
                 tgt = e[1][1] if e[1] else ""
                 who = next((i for i in range(n) if tgt.endswith(tags[i])), None)
@@ -561,10 +613,11 @@ class BucketPart:
                 else:
                     tgt = tgt[:-len(tags[who])]
                 for o in e[2]:
-                    if o[1] != "out" + tags[who] or owner.get(o[2]) != who:
+                    if not o[1].endswith(tags[who]) or owner.get(o[2]) != who:
                         interfere.append(f"instances-interfere: packet {o[2]} (put into instance {tags[owner.get(o[2], 0)]}) came out of "
                                          f"tap {o[1]} during a step of instance {tags[who]}")
-                    o[1] = "out"
+                    else:
+                        o[1] = o[1][:-len(tags[who])]
                 logs[who].append([k, [e[1][0], tgt] if e[1] else e[1], e[2]] + ([e[3]] if k == "raise" else []) + [samples[who]])
             else:
                 interfere.append(f"instances-interfere: {e[:2]}")
@@ -574,7 +627,7 @@ class BucketPart:
                         interfere.append(f"instances-interfere: a {k} action of instance {tags[who] if who is not None else '-'} changed the "
                                          f"public state of instance {tags[i]}: {prev[i]} -> {samples[i]}")
             prev = samples
-        out = [{"log": logs[i], "raised": h.raised, "exhausted": h.exhausted} for i in range(n)]
+        out = [{"log": logs[i], "raised": h.raised, "exhausted": h.exhausted, "hand": True} for i in range(n)]
         out.append(interfere[:2])
         return out
 
@@ -588,9 +641,13 @@ class BucketPart:
         tb = case["kind"] == "tb"
         px = "T" if tb else "R"
         acts = []
+        force = "out"
         for e in obs["log"]:
             kind, sample = e[0], e[-1]
             outs = []
+            if kind == "rewire":
+                force = e[1]              # assigning `out` is not a step of the shaper: its state must not move (monitor)
+                continue
             if kind == "adv":
                 a = f"{px}Advance {cf.q(e[1])}"
             elif kind == "put":
@@ -605,6 +662,8 @@ class BucketPart:
                 a = px + a
             else:
                 return None, f"unexpected log entry {e[:2]}"
+            if hand and any(x[1] != force for x in outs):
+                return None, "a packet handed to a sink that is not the `out` in force"
             if hand and any(len(x) < 7 or x[6] is None for x in outs):
                 return None, "a forwarded packet without the next hop's sample of the shaper"
             if tb:
@@ -658,13 +717,17 @@ class BucketPart:
             return None                      # PIR without PBS: the code asserts; outside the model
         if obs["raised"]:
             return "false"
-        acts, err = self._obs_term(case, obs, hand=True)
+        # observations of this part's own harness carry the next hop's samples ("hand"); a stage of a pipeline observed by
+        # props/part_gensink.py does not: it is replayed with the plain tb_agree / tr_agree
+        hand = bool(obs.get("hand"))
+        acts, err = self._obs_term(case, obs, hand=hand)
         if acts is None:
             return f"false (* {err} *)"
         body = cf.lst(acts, sep=";\n    ")
+        sfx = "_h" if hand else ""
         if case["kind"] == "tb":
-            return f"tb_agree_h {cfg} (tb0 true {cfg} {cf.q(case['t0'])}) {body}"
-        return f"tr_agree_h {cfg} (tr0 true {cfg} {cf.q(case['t0'])}) {body}"
+            return f"tb_agree{sfx} {cfg} (tb0 true {cfg} {cf.q(case['t0'])}) {body}"
+        return f"tr_agree{sfx} {cfg} (tr0 true {cfg} {cf.q(case['t0'])}) {body}"
 
     def model_term(self, case):
         return None
@@ -676,7 +739,15 @@ class BucketPart:
         now = Fr(case["t0"])
         msgs, arrivals, deps = [], [], []
         nput = nfwd = 0
+        force, last = "out", None
         for e in obs["log"]:
+            if e[0] == "rewire":
+                if last is not None and e[-1] != last:
+                    msgs.append(f"bucket-rewire-changes-state: assigning `out` changed the shaper's public state {last} -> {e[-1]}")
+                force = e[1]
+                continue
+            if e[0] in ("adv", "put", "step"):
+                last = e[-1]
             if e[0] == "adv":
                 t = Fr(e[1])
                 if t < now:
@@ -690,7 +761,9 @@ class BucketPart:
                 arrivals.append((e[1], now, specs[str(e[1])]["size"]))
                 nput += 1
             for o in outs:
-                deps.append({"uid": o[2], "t": now, "fields": o[3], "same": o[4], "colour": o[5], "hand": o[6], "nput": nput,
+                if o[1] != force:
+                    msgs.append(f"bucket-wrong-sink: packet {o[2]} was handed to sink {o[1]!r} while `out` is {force!r}")
+                deps.append({"uid": o[2], "t": now, "fields": o[3], "same": o[4], "colour": o[5] if len(o) > 5 else None, "hand": o[6] if len(o) > 6 else None, "nput": nput,
                              "after": e[-1] if e[0] in ("put", "step") else None})
                 nfwd += 1
             if e[0] in ("put", "step"):
@@ -738,6 +811,9 @@ class BucketPart:
                     msgs.append(f"{kind}-flow-order: flow {fl} entered {a} left {g}")
             return msgs[:3]
         # ---- C11 ----
+        if len(set(got)) != len(got):
+            msgs.append(f"{kind}-forwarded-twice: released uids {got}")
+            return msgs[:3]
         if got != order[:len(got)]:
             msgs.append(f"{kind}-fifo: put in {order}, released {got}")
             return msgs[:3]
@@ -870,7 +946,15 @@ class BucketPart:
             yield {**case, "t0": "0/1", "workload": {**w, "drivers": ds}}
         if case.get("pre"):
             yield {**case, "pre": False}
-        for flag in ("canary", "late_cfg", "ids"):
+        rw = case.get("rewire")
+        if rw:
+            for j in range(len(rw["mid"])):
+                yield {**case, "rewire": {**rw, "mid": rw["mid"][:j] + rw["mid"][j + 1:]}}
+            if rw["pre"] > 0 and (rw["pre"] > 1 or rw["mid"]):
+                yield {**case, "rewire": {**rw, "pre": rw["pre"] - 1}}
+            if rw["pre_none"]:
+                yield {**case, "rewire": {**rw, "pre_none": False}}
+        for flag in ("canary", "late_cfg", "ids", "rewire"):
             if case.get(flag):
                 yield {k: v for k, v in case.items() if k != flag}
         if case["kind"] == "tb" and case["peak"] is not None:
@@ -900,6 +984,12 @@ class BucketPart:
             keys.append(f"{k}:driver-created-before-element")
         if case.get("late_cfg"):
             keys.append(f"{k}:late-configuration={case['late_cfg']}")
+        if case.get("rewire"):
+            rw = case["rewire"]
+            keys.append(f"{k}:out-assigned-before-traffic={rw['pre'] + 1}")
+            keys.append(f"{k}:out-reattached-mid-run={len(rw['mid'])}")
+            if rw["pre_none"] or any(m["none"] for m in rw["mid"]):
+                keys.append(f"{k}:out-none-in-between")
         if case.get("ids"):
             keys.append(f"{k}:ids-per-flow")
             ids = [(sp["id"]) for sp in case["workload"]["packets"].values()]
